@@ -112,3 +112,39 @@ void vp_harness(void) {
 #endif
 }
 #endif
+
+#if defined(VP_H_ESTOP)
+void vp_harness(void) {
+	setup();
+	_Bool null_train, null_out;
+	int r = bidib_emergency_stop_train(null_train ? NULL : "t", null_out ? NULL : "o");
+	_Bool ok = !null_train && !null_out && g_train_known && g_board_known && g_board.connected && (g_board.unique_id.class_id & (1 << 4));
+	VP_COVER(r == 0); VP_COVER(r == 1 && g_train_known && g_board_known);
+	__CPROVER_assert(r == (ok ? 0 : 1) && g_drive_calls == (ok ? 1u : 0u), "C09.estop_cmd.exactly_one_drive_message_iff_known_train_and_connected_track_output");
+	if (ok) {
+		__CPROVER_assert(g_drive_addr.top == g_board.node_addr.top && g_drive_addr.sub == g_board.node_addr.sub && g_drive_addr.subsub == g_board.node_addr.subsub, "C09.estop_cmd.to_the_boards_current_node_address");
+		__CPROVER_assert(g_drive_params.dcc_address.addrl == g_train.dcc_addr.addrl && g_drive_params.dcc_address.addrh == g_train.dcc_addr.addrh &&
+		                 g_drive_params.dcc_format == (g_train.dcc_speed_steps == 28 ? 2 : g_train.dcc_speed_steps == 126 ? 3 : 0), "C09.estop_cmd.trains_dcc_address_and_format");
+		__CPROVER_assert(g_drive_params.active == 1 && (g_drive_params.speed & 0x7F) == 1 && g_drive_params.function1 == 0 && g_drive_params.function2 == 0 && g_drive_params.function3 == 0 && g_drive_params.function4 == 0,
+		                 "C09.estop_cmd.speed_step_1_is_the_dcc_emergency_stop_and_only_the_speed_group_is_active");
+	}
+}
+#elif defined(VP_H_CALIBRATED)
+void vp_harness(void) {
+	setup();
+	static int cal[9]; static vp_garray vcal; vcal.data = (gchar *)cal; vcal.len = 9; vcal.elt_size = sizeof cal[0];
+	for (int k = 0; k < 9; k++) __CPROVER_assume(cal[k] >= 0 && cal[k] <= 126);       /* C14: calibration is 9 values <= 126 (C13.parse_train_calibration) */
+	_Bool has_cal; g_train.calibration = has_cal ? (GArray *)&vcal : NULL;
+	int in_speed; VP_IN(int, in_speed);
+	int r = bidib_set_calibrated_train_speed("t", in_speed, "o");
+	_Bool ok = in_speed >= -9 && in_speed <= 9 && g_train_known && has_cal && g_board_known && g_board.connected && (g_board.unique_id.class_id & (1 << 4));
+	VP_COVER(r == 0 && in_speed == -9); VP_COVER(r == 1 && in_speed == 10); VP_COVER(r == 0 && in_speed == 0);
+	__CPROVER_assert(r == (ok ? 0 : 1) && g_drive_calls == (ok ? 1u : 0u), "C09.calibrated_cmd.one_drive_message_iff_level_in_-9..9_train_calibrated_and_track_output_connected");
+	if (ok) {
+		int step = in_speed == 0 ? 0 : cal[(in_speed < 0 ? -in_speed : in_speed) - 1];
+		_Bool fw = step == 0 ? g_ts.set_is_forwards : (in_speed > 0);     /* a level calibrated to step 0 is a stop: direction kept */
+		__CPROVER_assert(g_drive_params.speed == (uint8_t)((fw ? 0x80 : 0) | (step == 0 ? 0 : step + 1)), "C09.calibrated_cmd.speed_is_the_configured_step_of_that_level_with_the_sign_as_direction");
+	}
+}
+#endif
+
